@@ -26,6 +26,13 @@ const (
 )
 
 func resolveErgoDir(start string) (string, error) {
+	// Walk up from an absolute path: a relative start ("." from a
+	// subdirectory, "docs", "sub/..") has no parents to climb to.
+	if !filepath.IsAbs(start) {
+		if abs, err := filepath.Abs(start); err == nil {
+			start = abs
+		}
+	}
 	current := start
 	for {
 		candidate := filepath.Join(current, dataDirName)
